@@ -46,7 +46,7 @@ def jobs(tier):
             js.append(dict(name=f"header[{'+'.join(a)}|short+string|int,L={L}]", fn="chunks", args=[[list(a), ["short", "string"], ["int"]], L, list(SURPLUS), False, True],
                            collect_models=1, expect=["last chunk consumed exactly"]))
     # size thresholds: a chunk that ends far from where it starts (seed C06h: a break scan that works in widening windows)
-    for L in ((66, 130) if q else (33, 66, 100, 130, 200, 260)):
+    for L in ((66, 130, 260) if q else (33, 66, 100, 130, 200, 260, 300)):
         js.append(dict(name=f"long[char+string|short+string|int,L={L}]", fn="chunks", args=[[["char", "string"], ["short", "string"], ["int"]], L, list(SURPLUS)],
                        collect_models=1, expect=["last chunk consumed exactly"]))
     if q:
